@@ -14,7 +14,7 @@ RULE = ('bounded family: every sequence of <= L server steps over a 17-token '
         'got past Connecting; distinct = distinct (event-name sequence, '
         'faults fired) signatures')
 SHRINK_LISTS = [('tokens',), ('faults',)]
-EXPECTED_PROBES = ['reached_ready', 'reached_rejected', 'reached_protocol_error',
+EXPECTED_PROBES = ['ended_by_timer_only', 'reached_ready', 'reached_rejected', 'reached_protocol_error',
                    'reached_unresponsive', 'reached_closed', 'connect_fail',
                    'nongraceful', 'graceful']
 
@@ -45,9 +45,10 @@ def _nseq(L):
 
 def plan(tier):
     if tier == 'quick':
-        return [('bounded3', 6000), ('bounded4', 14000), ('random', 3000)]
+        return [('bounded3', 6000), ('bounded4', 14000), ('random', 3000),
+                ('hold', 1500)]
     return [('bounded3', _nseq(3) * NA * NF), ('bounded4', 600000),
-            ('bounded5', 300000), ('random', 100000)]
+            ('bounded5', 300000), ('random', 100000), ('hold', 60000)]
 
 
 def _decode_seq(n, L):
@@ -79,6 +80,26 @@ def make_case(family, i, rng, tier):
                 'faults': [FAULTS[f]] if FAULTS[f] else []}
         case['ping_timeout'] = [None, 20][(i // 7) % 2]
         case['close_timeout'] = [30, None, 3][(i // 3) % 3]
+        return case
+    if family == 'hold':
+        # the server completes the handshake, then keeps the connection open
+        # and stays silent for ever: only a timer can end the iteration
+        mid = rng.choices(['text', 'frag', 'cont', 'ping', 'pong', 'close',
+                           'invalid', 'silence_short', 'silence_long'],
+                          [4, 2, 2, 3, 2, 1, 0.3, 2, 1],
+                          k=rng.choice([0, 0, 1, 2, 5]))
+        case = {'tokens': ['good101'] + mid + ['hold'], 'faults': [],
+                'poll': rng.choice([5, 1, 0.25]),
+                'ping_rate': rng.choice([30, 0, 4])}
+        if rng.random() < 0.5:
+            case['ping_timeout'] = rng.choice([7, 20])
+            case['close_timeout'] = rng.choice([30, None, 0, 3])
+            case['app'] = rng.choice(APPS)
+        else:
+            case['ping_timeout'] = None
+            case['close_timeout'] = rng.choice([3, 30, 0.5])
+            case['app'] = rng.choice(['close_on_ready', 'early_bird',
+                                      'send_after_close'])
         return case
     # random long histories
     n = rng.choice([3, 8, 20, 60, 200])
@@ -145,7 +166,9 @@ def _compile_tokens(tokens):
             steps.append(S.eof())
         elif t == 'rst':
             steps.append(S.rst())
-    if not tokens or tokens[-1] not in ('eof', 'rst'):
+        elif t == 'hold':
+            steps.append({'op': 'silence'})
+    if not tokens or tokens[-1] not in ('eof', 'rst', 'hold'):
         steps.append(S.eof(after=1000000))
     return steps
 
@@ -232,6 +255,8 @@ def execute(case):
     for e in tr.events:
         if e.name == 'disconnected':
             res.stats['probe:graceful' if e.snap[1] else 'probe:nongraceful'] += 1
+    if case['tokens'] and case['tokens'][-1] == 'hold' and tr.finished:
+        res.stats['probe:ended_by_timer_only'] += 1
     res.nontrivial = len(names) > 1
     res.sig = ','.join(n[:4] for n in names if n != 'poll') + '|' + \
         ','.join(sorted(k for k in tr.world.stats if k.startswith('fault:')))
